@@ -18,9 +18,22 @@ def random_materials(rng, attenuation=False):
         kw_c["longitudinal_att"] = arim.material_attenuation_factory("constant", float(rng.uniform(0.0, 3.0)))
         kw_b["longitudinal_att"] = arim.material_attenuation_factory("constant", float(rng.uniform(0.0, 8.0)))
         kw_b["transverse_att"] = arim.material_attenuation_factory("constant", float(rng.uniform(0.0, 12.0)))
-    couplant = arim.Material(longitudinal_vel=c_f, density=float(rng.uniform(800.0, 1300.0)),
+    rho_f, rho_s = float(rng.uniform(800.0, 1300.0)), float(rng.uniform(2000.0, 9000.0))
+    if rng.random() < 0.3:
+        # the materials are created from nominal (catalogue) values and their documented attributes are then set to the
+        # measured ones, before anything is built from them: the same materials as when constructed with these values
+        couplant = arim.Material(longitudinal_vel=1480.0, density=1000.0, state_of_matter="liquid")
+        block = arim.Material(longitudinal_vel=6320.0, transverse_vel=3130.0, density=2700.0, state_of_matter="solid")
+        couplant.longitudinal_vel, couplant.density = c_f, rho_f
+        block.longitudinal_vel, block.transverse_vel, block.density = c_l, c_t, rho_s
+        for k_, v_ in kw_c.items():
+            setattr(couplant, k_, v_)
+        for k_, v_ in kw_b.items():
+            setattr(block, k_, v_)
+        return couplant, block
+    couplant = arim.Material(longitudinal_vel=c_f, density=rho_f,
                              state_of_matter="liquid", **kw_c)
-    block = arim.Material(longitudinal_vel=c_l, transverse_vel=c_t, density=float(rng.uniform(2000.0, 9000.0)),
+    block = arim.Material(longitudinal_vel=c_l, transverse_vel=c_t, density=rho_s,
                           state_of_matter="solid", **kw_b)
     return couplant, block
 
